@@ -98,11 +98,48 @@ def disjointReports (t : Trace) (ids : List Nat) : Bool :=
     | some ra, some rb => (workIDs ra).all (fun w => !(workIDs rb).contains w)
     | _, _ => false
 
-/-- S2: an honest member is never willing to transmit two different reports for one unit of work at once -/
+/-- S2 at full strength: an honest member is never willing to transmit two different reports for one unit of work at
+once.  FALSE of the code at two corners (proved: `Props/C09Net.one_report_per_work_false_diff_blocks` and
+`…_false_same_block`; both are known findings) — `s2Class` tells them apart from everything else. -/
 def oneReportPerWork (t : Trace) : Bool :=
   t.honest.all fun h =>
     (List.range t.rounds.length).all fun r =>
       disjointReports t (willing t h r false) && disjointReports t (willing t h r true)
+
+/-- how a pair of reports offered at once by one member relates -/
+inductive S2Class where
+  | ok         -- no unit of work in common
+  | sameBlock  -- every shared unit of work is listed at the same check block in both (what the coordinator guarantees)
+  | anyOf      -- some shared unit of work at two check blocks, one of the reports lists further upkeeps
+  | hard       -- some shared unit of work at two check blocks in two single-upkeep reports: impossible for the model
+deriving DecidableEq, Repr
+
+def S2Class.rank : S2Class → Nat
+  | .ok => 0 | .sameBlock => 1 | .anyOf => 2 | .hard => 3
+
+def S2Class.max (a b : S2Class) : S2Class := if a.rank < b.rank then b else a
+
+def blocksOf (r : Report) (w : String) : List Nat := (r.upkeeps.filter (·.workID == w)).map (·.trigger.blockNumber)
+
+def pairClass (ra rb : Report) : S2Class :=
+  let shared := (workIDs ra).filter (fun w => (workIDs rb).contains w)
+  if shared.isEmpty then .ok
+  else if shared.all (fun w => (blocksOf ra w).all (fun b => (blocksOf rb w).all (· == b))) then .sameBlock
+  else if ra.upkeeps.length ≥ 2 || rb.upkeeps.length ≥ 2 then .anyOf
+  else .hard
+
+def idsClass (t : Trace) (ids : List Nat) : S2Class :=
+  ids.foldl (fun acc a => ids.foldl (fun acc b =>
+    if a == b then acc else
+    match reportOf t a, reportOf t b with
+    | some ra, some rb => acc.max (pairClass ra rb)
+    | _, _ => .hard) acc) .ok
+
+/-- the worst relation between two reports offered at once by an honest member anywhere in the trace -/
+def s2Class (t : Trace) : S2Class :=
+  t.honest.foldl (fun acc h =>
+    (List.range t.rounds.length).foldl (fun acc r =>
+      (acc.max (idsClass t (willing t h r false))).max (idsClass t (willing t h r true))) acc) .ok
 
 /-- `w` is in flight on member `h` right before round `r`'s observations -/
 def inFlight (t : Trace) (h r : Nat) (w : String) : Bool :=
@@ -170,9 +207,12 @@ def explain (t : Trace) (restarts : List (Nat × Nat)) : String :=
   if !transmitOnlyAcceptedSinceRestart t restarts then "a member is willing to transmit a report it has not accepted since its last restart (no acceptance of that unit of work at that check block)"
   else if !outcomesAgree t then "honest members computed different outcome bytes for the same round"
   else if !transmitVouched t then "an honest member is willing to transmit an upkeep that no honest pipeline found eligible with identical data, or that fewer than f+1 validated observations vouched for"
-  else if !oneReportPerWork t then "two-reports-one-work: an honest member is willing to transmit two different reports for the same unit of work at once"
+  else if s2Class t == .hard then "two-reports-one-work: an honest member is willing to transmit two single-upkeep reports for the same unit of work at different check blocks at once"
   else if !notReagreedInFlight t then "a unit of work was agreed again while in flight on every correct member"
   else if !notReagreedInFlightTruth t then "a unit of work was agreed again although every correct member had accepted a report for it and had been shown no transmit event for that (or a newer) check block"
+  -- the two corners where the clause is false of the code (known findings) come last, so that they never mask another failure
+  else if s2Class t == .anyOf then "two-reports-one-work/any-of: an honest member is willing to transmit two reports listing one unit of work at different check blocks at once; the older one lists further upkeeps and stays offered on their account (any-of rule of ShouldTransmitAcceptedReport)"
+  else if s2Class t == .sameBlock then "two-reports-one-work/same-block: an honest member is willing to transmit two different reports that list one unit of work at the same check block at once (one coordinator record per unit of work; the reports differ in their other upkeeps or in the round that produced them)"
   else "ok"
 
 end AutoVerif.C09
